@@ -1,7 +1,7 @@
 (* Extract.v - extraction of the executable model to OCaml for the correspondence check.
    Only ExtrOcamlBasic is used (bool, option, unit, list, prod, sumbool, sumor mapped to OCaml's);
    N, Z, positive, nat stay the extracted inductive types; no Extract Constant. *)
-From FH Require Import Consts Word X86 A64 Unwinder DwarfRow Cfi X86Dwarf A64Dwarf DwarfCb Pe X86Unw A64Unw.
+From FH Require Import Consts Word X86 A64 Unwinder DwarfRow Cfi X86Dwarf A64Dwarf DwarfCb Pe X86Unw A64Unw Policy.
 Require Extraction.
 Require ExtrOcamlBasic.
 Extraction Language OCaml.
@@ -12,5 +12,5 @@ Extraction "model.ml"
   aexec mask_from_max_checked mask_24_40 mask_no_strip aregs_new_with_mask
   cache_new world0 run_op_x run_op_a iter_new iter_run_x iter_run_a
   unwind_frame_x unwind_frame_a
-  translate_x86 translate_a64 ms_unwind
+  translate_x86 translate_a64 ms_unwind cap_mdata cap_amdata
   CACHE_ENTRY_COUNT.
